@@ -191,15 +191,16 @@ Theorem C01_pipeline_gt : forall (H : list N -> list N) v2 l w0 lf wf ef bf w1 l
   (forall t, status (st w2) t = true -> status (st w3) t = true).
 Proof. exact pipeline_gt. Qed.
 
-(** ** from deployment (launchpad; launchpad-locked-tokens runs the same endpoints): [PreSel] holds in
-    every state reached from a deployment with an ESDT launchpad token by accepted allocation
-    (positive sizes), deposit, confirmation, pause / unpause, timeline and support transactions - so
-    the pipeline theorem needs no hypothesis about the state at all *)
-Theorem C01_setup_reach : forall (H : list N -> list N) w, setup_reach H w -> exists l, PreSel w l.
+(** ** from deployment ([plain v]: launchpad and launchpad-locked-tokens): [PreSel] holds in every
+    state reached from a deployment with an ESDT launchpad token by accepted allocation (positive
+    sizes), deposit, confirmation, blacklisting, pause / unpause, tokens-per-ticket, timeline and
+    support transactions ([setup_call]; each a whole [exec] transaction, the VM crediting the call
+    value first) - so the pipeline theorem needs no hypothesis about the state at all *)
+Theorem C01_setup_reach : forall (H : list N -> list N) v w, plain v -> setup_reach H v w -> exists l, PreSel w l.
 Proof. exact setup_reach_PreSel. Qed.
 
-Theorem C01_from_deployment : forall (H : list N -> list N) w0 lf wf ef bf w1 ls ws es bs w2 sd rest,
-  setup_reach H w0 ->
+Theorem C01_from_deployment : forall (H : list N -> list N) v w0 lf wf ef bf w1 ls ws es bs w2 sd rest,
+  plain v -> setup_reach H v w0 ->
   after_interrupted filter_tickets lf w0 = Some wf -> filter_tickets ef bf wf = Ok (w1, 0) ->
   seeds w1 = sd :: rest ->
   after_interrupted (select_winners H) ls w1 = Some ws -> select_winners H es bs ws = Ok (w2, 0) ->
@@ -216,7 +217,7 @@ Proof. exact deployed_pipeline. Qed.
 
 (** the concrete history of [Examples] (deployment, allocation of 3 + 2, deposit, two confirmations,
     each an [exec] transaction) is such a set-up history *)
-Example C01_setup_nonvacuous : setup_reach sha256 base_confirmed.
+Example C01_setup_nonvacuous : setup_reach sha256 Base base_confirmed.
 Proof. exact base_confirmed_reachable. Qed.
 
 (** [PreSel] is satisfied by a state reached from deployment through real transactions (allocation of
